@@ -472,6 +472,11 @@ func (db *DB) getActiveFileWriteOff() (off int64, err error) {
 				break
 			}
 
+			// the active file is exactly full: there is nothing to read after its last entry
+			if off >= db.opt.SegmentSize {
+				break
+			}
+
 			return -1, fmt.Errorf("when build activeDataIndex readAt err: %s", err)
 		}
 	}
